@@ -60,6 +60,23 @@ def mutants_for(lines, lo, hi):
         # delete a one-line statement that is a call ending in `?;` or a plain method call `;`
         if re.match(r'^\s*(self\.|Self::)?[A-Za-z_][\w\.:]*\(.*\)\??;\s*$', code) and 'let ' not in code and 'return' not in code:
             out.append((ln, 'statement deleted', t[:len(t) - len(t.lstrip())] + '();', ln))
+    # field swap: `.a` -> `.b` for two field / method names that both occur in this extract ("wrong key / field")
+    names = sorted(set(re.findall(r'\.([a-z_][a-z0-9_]{2,})\b(?!\s*\()', '\n'.join(l.split('//')[0] for l in lines[lo - 1:hi]))))
+    CONF = [('created_at', 'processed_at'), ('last_message_at', 'last_message_processed_at'), ('image_key', 'image_nonce'), ('image_key', 'image_hash'),
+            ('image_key', 'image_upload_key'), ('name', 'description'), ('mls_group_id', 'nostr_group_id'), ('id', 'wrapper_event_id'),
+            ('group_name', 'group_description'), ('group_image_key', 'group_image_hash'), ('admins', 'relays'), ('applied_commit_ts', 'epoch'),
+            ('message_event_id', 'wrapper_event_id'), ('epoch', 'processed_at')]
+    for ln in range(lo, hi + 1):
+        t = lines[ln - 1]; code = t.split('//')[0]
+        if 'tracing::' in code or code.strip().startswith('#['):
+            continue
+        for a, b in CONF:
+            for x, y in ((a, b), (b, a)):
+                for m in re.finditer(r'\.' + x + r'\b(?!\s*\()', code):
+                    if code[:m.start()].count('"') % 2 == 1:
+                        continue
+                    new = code[:m.start()] + '.' + y + code[m.end():] + t[len(code):]
+                    out.append((ln, f'field `.{x}` -> `.{y}`', new, ln))
     # multi-line: (a) a call statement `self.x(..)\n   .y()?;` without a binding, (b) a guard `if c { return Err(..); }`
     ln = lo
     while ln <= hi:
